@@ -700,11 +700,56 @@ class STr(MTr):
             x = self.tmp('r')
             self.pre.append(('bindL', (stv, x), term))
             return ((f'({x} = true)', PROP) if info['ret'] == BOOL else (x, info['ret']))
-        if bt == STR and f.attr == 'encode' and not e.args and not e.keywords and self.prog.externs.get('str=utf8'):
+        if bt == STR and f.attr == 'encode' and self.prog.externs.get('str=utf8'):
+            self.check_codec(e)                   # the codec / error handler the call names must BE the declared one
             return base, BYTES                    # declared: a str travels as its UTF-8 bytes
-        if bt == BYTES and f.attr == 'decode' and not e.args and not e.keywords and self.prog.externs.get('str=utf8'):
+        if bt == BYTES and f.attr == 'decode' and self.prog.externs.get('str=utf8'):
+            self.check_codec(e)
             return base, STR
         raise Untranslatable(f'call of .{f.attr} on a {bt}')
+
+    def check_codec(self, e):
+        """`<str>.encode(...)` / `<bytes>.decode(...)`: the declared interface reads them as the identity on the UTF-8 bytes.  That is what
+        the call means only for the codec 'utf-8' (any spelling CPython resolves to it) with errors='strict' (the defaults); the codec and
+        the error handler are therefore READ from the call (a literal, or a module-level name bound once to a literal) and anything else
+        - 'utf-8-sig', 'latin-1', errors='ignore' ... - is outside the declared interface, never silently the identity."""
+        import codecs
+        vals = {}
+        if len(e.args) > 2:
+            raise Untranslatable(f'.{e.func.attr} with {len(e.args)} arguments')
+        for name, a in list(zip(('encoding', 'errors'), e.args)) + [(k.arg, k.value) for k in e.keywords]:
+            if name not in ('encoding', 'errors') or name in vals:
+                raise Untranslatable(f'.{e.func.attr}: argument {name}')
+            vals[name] = self.const_str(a)
+        codec, errors = vals.get('encoding', 'utf-8'), vals.get('errors', 'strict')
+        try:
+            canon = codecs.lookup(codec).name
+        except LookupError:
+            canon = None
+        if canon != 'utf-8' or errors != 'strict':
+            raise Untranslatable(f'.{e.func.attr}({codec!r}, errors={errors!r}) in {self.owner}.{self.fn.name} is outside the declared interface '
+                                 f'(a str travels as its UTF-8 bytes: codec utf-8, errors strict)')
+
+    def const_str(self, a):
+        """the str a codec argument denotes: a literal, or a name that the module of the method binds exactly once, at top level, to a literal"""
+        if isinstance(a, ast.Constant) and isinstance(a.value, str):
+            return a.value
+        if isinstance(a, ast.Name) and a.id not in self.env:
+            import os
+            from ..paths import REPO
+            src = self.prog.classes[self.owner].get('src', self.prog.src)
+            try:
+                tree = ast.parse(open(os.path.join(REPO, src)).read())
+            except OSError:
+                tree = None
+            if tree is not None:
+                stores = [n for n in ast.walk(tree) if isinstance(n, ast.Name) and n.id == a.id and isinstance(n.ctx, (ast.Store, ast.Del))]
+                tops = [s for s in tree.body if isinstance(s, ast.Assign) and len(s.targets) == 1 and isinstance(s.targets[0], ast.Name)
+                        and s.targets[0].id == a.id and isinstance(s.value, ast.Constant) and isinstance(s.value.value, str)]
+                glob = [n for n in ast.walk(tree) if isinstance(n, (ast.Global, ast.Nonlocal)) and a.id in n.names]
+                if len(stores) == 1 and len(tops) == 1 and not glob:
+                    return tops[0].value.value
+        raise Untranslatable(f'the codec argument `{ast.unparse(a)}` of .encode / .decode is not a literal')
 
     def with_defaults(self, cls, name, args):
         """missing trailing arguments are filled from literal int defaults"""
